@@ -77,6 +77,28 @@ func (c28Engine) Generate(seed uint64, tier string) *simrun.Case {
 			c.Ops = append(c.Ops, simrun.Op{C: 0, K: "advance", A: []int64{c28Advances[r.Intn(len(c28Advances))]}})
 		}
 	}
+	if r.Chance(1, 4) {
+		// scenario appended to the random history: an item is past its expiry but not swept yet; then a sweep of
+		// its class runs concurrently with a fresh Add of the same key (and lookups of it) by another client
+		if nclients < 2 {
+			nclients = 2
+			c.Knobs["clients"] = 2
+		}
+		class, key := int64(r.Intn(len(c28Classes))), int64(r.Intn(nkeys))
+		val++
+		c.Ops = append(c.Ops, simrun.Op{C: 1, K: "setexp", A: []int64{class, 0}}, simrun.Op{C: 1, K: "add", A: []int64{class, key, val}},
+			simrun.Op{C: 0, K: "advance", A: []int64{[]int64{7, 31}[r.Intn(2)]}})
+		val++
+		c.Ops = append(c.Ops, simrun.Op{C: 1, K: "sweep", A: []int64{class}}, simrun.Op{C: 2, K: "add", A: []int64{class, key, val}},
+			simrun.Op{C: 2, K: "find", A: []int64{class, key}})
+		if r.Chance(1, 2) {
+			c.Ops = append(c.Ops, simrun.Op{C: 1, K: "find", A: []int64{class, key}})
+		}
+		c.Ops = append(c.Ops, simrun.Op{C: 0, K: "advance", A: []int64{1}}, simrun.Op{C: 1, K: "find", A: []int64{class, key}})
+	}
+	// swarm: in two thirds of the runs every mutex release is followed by a scheduling point (a goroutine can lose
+	// the processor right after an Unlock, before its next statement)
+	c.Knobs["unlock_yield"] = []int64{0, 1, 1}[r.Intn(3)]
 	return c
 }
 
@@ -339,6 +361,14 @@ func c28Do(client int, op simrun.Op, rec *c28Rec) {
 	n := Size(id) // (never call into the package while holding the recorder's real mutex)
 	rec.mu.Lock()
 	delete(rec.current, tid)
+	// (the listener is called in Go map order for the entries of one sweep, which no seam controls; the
+	// oracle treats the reports of one operation as a set)
+	sort.Slice(o.Evicted, func(a, b int) bool {
+		if o.Evicted[a].Key != o.Evicted[b].Key {
+			return o.Evicted[a].Key < o.Evicted[b].Key
+		}
+		return o.Evicted[a].Val < o.Evicted[b].Val
+	})
 	if n > limit {
 		rec.bad = append(rec.bad, fmt.Sprintf("over-limit: cache class %d holds %d entries, limit %d", id, n, limit))
 	}
